@@ -1,6 +1,7 @@
 import VlsModel.Lemmas.Velocity
 import VlsModel.Model.PersistConv
 import VlsModel.Gen.PersistConv
+import VlsModel.Gen.Approver
 /-
 C12 — Velocity limits bound spending in every time window, across restarts.
 
@@ -437,6 +438,98 @@ example :
     let stale := VC.loadFromState ⟨1000, .daily⟩ (VC.ofSpec ⟨1000, .hourly⟩).getState
     stale.buckets.length = 12 ∧ stale.bi = 3600 ∧ stale.specMatches ⟨1000, .daily⟩ = false ∧
     (run stale [] [(1000000, 900), (1046900, 900)]).map (·.2) = some [(1046900, 900), (1000000, 900)] := by decide
+
+/-! ### The approver-level control (`VelocityApprover`, vls-protocol-signer/src/approver.rs)
+
+In front of the node the signer may run a `VelocityApprover`: a request is approved *automatically* while the
+approver's own control accepts it; what the control refuses goes to a delegate (a human), and a manual approval
+clears the control.  The property speaks about what the signer approves by itself: the automatically approved
+amounts since the last manual approval obey the window bound, whatever the delegate answers. -/
+
+theorem good_clear {limit bi n T : Nat} {v : VC} {log : Log} (g : Good limit bi n T v log) :
+    Good limit bi n T v.clear [] := by
+  obtain ⟨inv, hbi, hlimit, hlen, hstart, htimes, hwin⟩ := g
+  refine ⟨⟨inv.bi_pos, inv.aligned, ?_, ?_⟩, hbi, hlimit, by simpa [VC.clear] using hlen, hstart, ?_, ?_⟩
+  · intro p hp; cases hp
+  · simp only [VC.clear, List.length_map]
+    apply List.ext_getElem
+    · simp
+    · intro i h1 h2; simp [bsum]
+  · intro p hp; cases hp
+  · intro lo; simp [windowSum]
+
+/-- requests `(time, amount, what the delegate would answer)`; the log collects the automatic approvals since the
+    last manual one -/
+def runApprover : VC → Log → List (Nat × Nat × Bool) → Option (VC × Log)
+  | v, log, [] => some (v, log)
+  | v, log, (t, a, d) :: rest =>
+    match v.approve t a d with
+    | none => none
+    | some (v', _, true) => runApprover v' ((t, a) :: log) rest       -- automatic
+    | some (v', true, false) => runApprover v' [] rest                 -- manual approval: the control was cleared
+    | some (v', false, false) => runApprover v' log rest               -- declined
+
+def SortedA (t0 : Nat) : List (Nat × Nat × Bool) → Prop
+  | [] => True
+  | (t, _, _) :: rest => t0 ≤ t ∧ SortedA t rest
+
+/-- **C12 (approver)**: for every limit below `u64::MAX`, every geometry and every request history with
+    non-decreasing timestamps — whatever the delegate answers —, the amounts the approver approved by itself since
+    the last manual approval sum to at most the limit in every window of the tracked interval minus one bucket. -/
+theorem C12_approver (limit bi n : Nat) (hbi : 0 < bi) (hn : 0 < n) (hlim : limit < U64.MAX)
+    (reqs : List (Nat × Nat × Bool)) (hs : SortedA 0 reqs) (v : VC) (log : Log)
+    (hrun : runApprover (VC.newWithIntervals limit bi n) [] reqs = some (v, log)) (lo : Nat) :
+    windowSum log lo (lo + (n - 1) * bi) ≤ limit := by
+  suffices H : ∀ (reqs : List (Nat × Nat × Bool)) (v0 : VC) (log0 : Log) (T : Nat), Good limit bi n T v0 log0 →
+      SortedA T reqs → ∀ v log, runApprover v0 log0 reqs = some (v, log) → ∃ T', Good limit bi n T' v log by
+    obtain ⟨T', g⟩ := H reqs _ _ 0 (good_init limit bi n hbi) hs v log hrun
+    exact g.hwin lo
+  intro reqs
+  induction reqs with
+  | nil => intro v0 log0 T g _ v log h; simp [runApprover] at h; exact ⟨T, h.1 ▸ h.2 ▸ g⟩
+  | cons r rest ih =>
+    intro v0 log0 T g hs v log h
+    obtain ⟨t, a, d⟩ := r
+    obtain ⟨ht, hs'⟩ := hs
+    simp only [runApprover, VC.approve] at h
+    cases hi : v0.insert t a with
+    | none => simp [hi] at h
+    | some res =>
+      obtain ⟨v1, ok⟩ := res
+      have gs := good_step hn hlim g t a ht v1 ok hi
+      cases ok with
+      | true =>
+        simp only [hi] at h
+        exact ih v1 _ t (by simpa using gs) hs' v log h
+      | false =>
+        have gs' : Good limit bi n t v1 log0 := by simpa using gs
+        cases d with
+        | true =>
+          simp only [hi, if_true] at h
+          exact ih v1.clear [] t (good_clear gs') hs' v log h
+        | false =>
+          simp only [hi, Bool.false_eq_true, if_false] at h
+          exact ih v1 log0 t gs' hs' v log h
+
+/-- with a delegate that always declines (`NegativeApprover`, the harness's and a headless signer's setting) the
+    approver is the plain control: approved = inserted, and `C12_main` is the statement about everything approved -/
+theorem C12_approver_negative (v : VC) (now amt : Nat) :
+    v.approve now amt false = (v.insert now amt).map (fun r => (r.1, r.2, r.2)) := by
+  unfold VC.approve
+  cases v.insert now amt with
+  | none => rfl
+  | some r => obtain ⟨v', ok⟩ := r; cases ok <;> rfl
+
+/-- **C12_gen_approver_form** (generated obligation): `VC.approve` mirrors the source — the extractor emits these
+    two constants only when `approve_invoice` / `approve_keysend` / `approve_onchain` of
+    `impl Approve for VelocityApprover` have exactly the modelled text -/
+theorem C12_gen_approver_form :
+    Gen.Approver.velocityApproverForm = true ∧ Gen.Approver.onchainDelegatesOnly = true := ⟨rfl, rfl⟩
+
+/-- non-vacuity: 90 approved automatically, 20 refused by the control and approved by hand (the control is
+    cleared), then 100 more approved automatically at once -/
+example : (runApprover (VC.newWithIntervals 100 10 4) [] [(1100, 90, false), (1101, 20, true), (1102, 100, false), (1103, 1, false)]).map (·.2)
+    = some [(1102, 100)] := by decide
 
 /-! ### Tie to the source: the controls reach the store and come back (translate/x_persistconv.py) -/
 
